@@ -273,6 +273,13 @@ structure Accepts (es : List Expect) (rows : List Row) : Prop where
   nodup : rows.Nodup
   bound : rows.length ≤ (es.map Expect.count).sum
 
+/-- no two different selected sockets can yield the same row (whichever of their owners is shown),
+    and a UNIX socket's holders are listed once each. Sockets may well share an inode number — the
+    kernel prints inode 0 for every socket without a `struct socket` (TIME_WAIT, SYN_RECV, orphans). -/
+def Distinct (es : List Expect) : Prop :=
+  es.Pairwise (fun a b => ∀ oa ∈ a.owners, ∀ ob ∈ b.owners, a.row oa ≠ b.row ob)
+  ∧ ∀ e ∈ es, e.all = true → e.owners.Nodup
+
 /-- executable form of `Accepts` (used by the driver) -/
 def accepts (es : List Expect) (rows : List Row) : Bool :=
   rows.all (fun r => es.any fun e => e.owners.any fun o => r == e.row o)
